@@ -159,15 +159,19 @@ theorem spawn_failure_clean :
     (∀ e, 0 < e → (spawnParent (.errno e)).ret = -(e : Int) ∧ (spawnParent (.errno e)).ret ≠ 0 ∧
       (spawnParent (.errno e)).reapedSync = true ∧ (spawnParent (.errno e)).activated = false) ∧
     (spawnParent .epipe).reapedSync = true ∧ (spawnParent .epipe).activated = false ∧
+    (∀ e, 0 < e → (spawnParent (.forkFailed e)).ret = -(e : Int) ∧ (spawnParent (.forkFailed e)).activated = false) ∧
     (∀ (ops : List Op) (ops' : List Op),
       let s := runP {} ops
       let s' := runP (stepP s .spawnFail) ops'
       s.nspawned ∉ s'.tracked ∧ cbCount s'.log s.nspawned = 0) := by
-  refine ⟨?_, rfl, rfl, ?_⟩
+  refine ⟨?_, rfl, rfl, ?_, ?_⟩
   · intro e he
     refine ⟨rfl, ?_, rfl, ?_⟩
     · simp [spawnParent]; omega
     · simp [spawnParent]; omega
+  · intro e he
+    refine ⟨rfl, ?_⟩
+    simp [spawnParent]; omega
   · intro ops ops'
     have inv := inv_run inv_init ops
     have hno : (runP {} ops).nspawned ∉ (runP {} ops).okIds := fun h => by
@@ -213,6 +217,63 @@ theorem spawn_failure_clean :
         have : c = (runP {} ops).nspawned := by simpa [Log.isWaited] using hx2
         subst this
         exact hnok (hinv.okW _ _ hx1)
+
+/-- **parent_table_init.** The table uv_spawn hands to the child has `max(stdio_count, 3)` entries, for
+*any* stdio_count (inline array or heap block alike), and entry `i` is: the container's descriptor for
+an inherit slot, the slot's own pipe end for UV_CREATE_PIPE, and `-1` for every UV_IGNORE slot and for
+the padding slots — never a left-over value. -/
+theorem parent_table_init (stdio : List Stdio) :
+    (parentTable stdio).length = max stdio.length 3 ∧
+    ∀ i, i < max stdio.length 3 →
+      (parentTable stdio)[i]? = some (match stdio[i]? with
+        | some (.inheritFd fd) => .fd fd
+        | some .createPipe => .pipeEnd
+        | _ => .fd (-1)) := by
+  have key : ∀ (cs : List Stdio) (n : Nat), cs.length ≤ n →
+      (fillTable cs (initTable n)).length = n ∧
+      ∀ i, i < n → (fillTable cs (initTable n))[i]? = some (match cs[i]? with
+        | some (.inheritFd fd) => .fd fd
+        | some .createPipe => .pipeEnd
+        | _ => .fd (-1)) := by
+    intro cs
+    induction cs with
+    | nil =>
+      intro n _
+      refine ⟨by simp [fillTable, initTable], ?_⟩
+      intro i hi
+      simp [fillTable, initTable, hi]
+    | cons c rest ih =>
+      intro n hn
+      cases n with
+      | zero => simp at hn
+      | succ n =>
+        obtain ⟨h1, h2⟩ := ih n (by simp at hn; omega)
+        have hinit : initTable (n + 1) = .fd (-1) :: initTable n := by simp [initTable, List.replicate_succ]
+        rw [hinit]
+        cases c with
+        | ignore =>
+          refine ⟨by simp [fillTable, h1], ?_⟩
+          intro i hi
+          cases i with
+          | zero => simp [fillTable]
+          | succ i => simpa [fillTable] using h2 i (by omega)
+        | inheritFd fd =>
+          refine ⟨by simp [fillTable, h1], ?_⟩
+          intro i hi
+          cases i with
+          | zero => simp [fillTable]
+          | succ i => simpa [fillTable] using h2 i (by omega)
+        | createPipe =>
+          refine ⟨by simp [fillTable, h1], ?_⟩
+          intro i hi
+          cases i with
+          | zero => simp [fillTable]
+          | succ i => simpa [fillTable] using h2 i (by omega)
+  exact key stdio (max stdio.length 3) (by omega)
+
+example : parentTable [.ignore, .inheritFd 5, .createPipe, .ignore, .ignore, .ignore, .ignore, .ignore, .ignore, .inheritFd 1] =
+    [.fd (-1), .fd 5, .pipeEnd, .fd (-1), .fd (-1), .fd (-1), .fd (-1), .fd (-1), .fd (-1), .fd 1] ∧
+    parentTable [] = [.fd (-1), .fd (-1), .fd (-1)] := by decide
 
 /-- non-vacuity: three children, two exit before the loop runs (one killed by SIGSEGV with core), one
 SIGCHLD round reports both, the third later; a failed spawn in between gets nothing. -/
